@@ -93,8 +93,6 @@ def _extra():
         lambda: N("iq", {"id": "1", "type": "get", "to": G1, "xmlns": "w:g2"}, [N("query", {"request": "interactive"})]))
     add("protocol_groups:iq_groups_leave.LeaveGroupsIqProtocolEntity",
         lambda: N("iq", {"id": "1", "type": "set", "to": "g.us", "xmlns": "w:g2"}, [N("leave", {"action": "delete"}, [N("group", {"id": G1})])]))
-    add("protocol_groups:iq_groups_participants.ParticipantsGroupsIqProtocolEntity",
-        lambda: N("iq", {"id": "1", "type": "get", "to": G1, "xmlns": "w:g2"}, [N("list")]))
     add("protocol_groups:iq_groups_participants_add.AddParticipantsIqProtocolEntity",
         lambda: N("iq", {"id": "1", "type": "set", "to": G1, "xmlns": "w:g2"}, [N("add", {}, [N("participant", {"jid": J1}), N("participant", {"jid": J2})])]))
     add("protocol_groups:iq_groups_participants_remove.RemoveParticipantsIqProtocolEntity",
